@@ -32,6 +32,7 @@
 #include <stdio.h>
 #include <stdlib.h>
 #include <string.h>
+#include <sys/stat.h>
 
 #include <unistd.h>
 #include <limits.h>
@@ -266,23 +267,72 @@ char * etcLdSoPreload_readFile ()
 void etcLdSoPreload_writeFile (char * newContent)
 {
     const char * filePath;
+    char         tmpFilePath[PATH_MAX];
+    struct stat  origStat;
+    int          origStatRes;
+    int          pathLen;
+    FILE       * fileHandle;
 
     filePath = etcLdSoPreload_getFilePath();
 
-    FILE * fileHandle = fopen(filePath, "w+");
+    /*
+     * Never write to the ld.so.preload file in place: the dynamic loader reads
+     * it on every exec, and an interrupted or failed write (kill, ENOSPC...)
+     * would leave it empty or truncated, losing the entries of other software.
+     * Write the complete new content to a temporary file in the same directory
+     * and rename() it over the real file - the file is then always either the
+     * complete old or the complete new one.
+     */
+    pathLen = snprintf(tmpFilePath, PATH_MAX, "%s.snoopy-tmp", filePath);
+    if ((pathLen < 0) || (pathLen >= PATH_MAX)) {
+        printDiagValue("ld.so.preload path", filePath);
+        fatalError("Path to ld.so.preload file is too long.");
+    }
+    origStatRes = stat(filePath, &origStat);
+
+    fileHandle = fopen(tmpFilePath, "w");
     if (fileHandle == NULL) {
         printDiagValue("ld.so.preload path", filePath);
         printDiagValue("Error message", strerror(errno));
         fatalError("Unable to open file for writing (missing sudo, maybe?).");
     }
 
-    if (fprintf(fileHandle, "%s", newContent) < 0) {
+    if (
+        (fprintf(fileHandle, "%s", newContent) < 0)
+        ||
+        (fflush(fileHandle) != 0)
+        ||
+        (fsync(fileno(fileHandle)) != 0)
+    ) {
+        int savedErrno = errno;
+        fclose(fileHandle);
+        unlink(tmpFilePath);
         printDiagValue("ld.so.preload path", filePath);
-        printDiagValue("Error message", strerror(errno));
+        printDiagValue("Error message", strerror(savedErrno));
         fatalError("Unable to write to file.");
     }
 
-    fclose(fileHandle);
+    /* Keep the permissions and ownership of the file we are about to replace */
+    if (origStatRes == 0) {
+        if (fchmod(fileno(fileHandle), origStat.st_mode & 07777) != 0) { /* Not fatal */ }
+        if (fchown(fileno(fileHandle), origStat.st_uid, origStat.st_gid) != 0) { /* Not fatal */ }
+    }
+
+    if (fclose(fileHandle) != 0) {
+        int savedErrno = errno;
+        unlink(tmpFilePath);
+        printDiagValue("ld.so.preload path", filePath);
+        printDiagValue("Error message", strerror(savedErrno));
+        fatalError("Unable to write to file.");
+    }
+
+    if (rename(tmpFilePath, filePath) != 0) {
+        int savedErrno = errno;
+        unlink(tmpFilePath);
+        printDiagValue("ld.so.preload path", filePath);
+        printDiagValue("Error message", strerror(savedErrno));
+        fatalError("Unable to replace the ld.so.preload file.");
+    }
 }
 
 
